@@ -310,8 +310,23 @@ int reader_init_block_reader(struct reftable_reader *r, struct block_reader *br,
 		}
 	}
 
-	return block_reader_init(br, &block, header_off, r->block_size,
-				 hash_size(r->hash_id));
+	err = block_reader_init(br, &block, header_off, r->block_size,
+				hash_size(r->hash_id));
+	while (err == REFTABLE_ZLIB_ERROR && block_typ == BLOCK_TYPE_LOG &&
+	       next_off + block.len < r->size) {
+		/* The zlib stream of a log block may be longer than both the
+		 * table's block size and the inflated size. Read more. */
+		uint32_t more = 2 * block.len;
+		reftable_block_done(&block);
+		err = reader_get_block(r, &block, next_off, more);
+		if (err < 0)
+			return err;
+		err = block_reader_init(br, &block, header_off, r->block_size,
+					hash_size(r->hash_id));
+	}
+	if (err < 0)
+		reftable_block_done(&block);
+	return err;
 }
 
 static int table_iter_next_block(struct table_iter *dest,
